@@ -153,11 +153,11 @@ theorem mem_filter_not {α : Type} (p : α → Bool) (x : α) (l : List α) :
     slice contains - endpoints whose pod is unknown are parked in `needResync`.  The only
     requirement is that a slice keeps its service label and address type across versions
     (both are immutable in Kubernetes). -/
-theorem slice_write_inv (c : Ctl) (v : Slice) (c' : Ctl) (hstep : stepC c (.slice v) = some c')
-    (hinv : Inv c)
+theorem slice_write_inv (c : Ctl) (v : Slice) (c' : Ctl) {P : Slice → Prop} (hstep : stepC c (.slice v) = some c')
+    (hinv : InvExcept c P)
     (hwf : WF { c with slices := upsertBy (fun x => x.ns = v.ns ∧ x.name = v.name) v c.slices })
     (hold : ∀ o ∈ c.slices, o.ns = v.ns → o.name = v.name → o.svc = v.svc ∧ o.fqdn = v.fqdn) :
-    Inv c' := by
+    InvExcept c' (fun x => P x ∧ x ≠ v) := by
   simp only [stepC, Option.some.injEq] at hstep
   subst hstep
   let c1 : Ctl := { c with slices := upsertBy (fun x => x.ns = v.ns ∧ x.name = v.name) v c.slices }
@@ -166,12 +166,12 @@ theorem slice_write_inv (c : Ctl) (v : Slice) (c' : Ctl) (hstep : stepC c (.slic
     simp
   have hv1 : v ∈ c1.slices := mem_upsertBy_self _ _ _
   -- before the handler runs only `v` itself is out of date
-  have h1 : InvExcept c1 (fun x => x = v) := by
+  have h1 : InvExcept c1 (fun x => P x ∨ x = v) := by
     refine ⟨?_, ?_, ?_, hinv.smapSome, hinv.smapOnly, hinv.index, hinv.nodup⟩
     · intro x hx hs hne
       cases mem_upsertBy _ _ _ _ hx with
-      | inl h => exact absurd h hne
-      | inr h => exact hinv.fresh x h hs (fun hf => hf)
+      | inl h => exact absurd (Or.inr h) hne
+      | inr h => exact hinv.fresh x h hs (fun hp => hne (Or.inl hp))
     · intro h n eps he
       obtain ⟨sl, hsl, hs, hh, hn⟩ := hinv.noForeign h n eps he
       by_cases hsame : sl.ns = v.ns ∧ sl.name = v.name
@@ -187,8 +187,8 @@ theorem slice_write_inv (c : Ctl) (v : Slice) (c' : Ctl) (hstep : stepC c (.slic
         · left; exact h1
     · intro x hx hne
       cases mem_upsertBy _ _ _ _ hx with
-      | inl h => exact absurd h hne
-      | inr h => exact hinv.parked x h (fun hf => hf)
+      | inl h => exact absurd (Or.inr h) hne
+      | inr h => exact hinv.parked x h (fun hp => hne (Or.inl hp))
   -- the handler
   have hrun : ∀ e, (e = Ev.slAdd v ∨ ∃ o, e = Ev.slUpd o v ∧ o.svc = v.svc) → ∃ old, runAll c1 [e] = sliceUpsert c1 old v := by
     intro e he
@@ -209,9 +209,12 @@ theorem slice_write_inv (c : Ctl) (v : Slice) (c' : Ctl) (hstep : stepC c (.slic
       have hon : o.ns = v.ns ∧ o.name = v.name := by simpa using List.find?_some hfo
       exact Or.inr ⟨o, rfl, (hold o ho hon.1 hon.2).1⟩
   obtain ⟨old, hr⟩ := this
-  show Inv (runAll c1 _)
+  show InvExcept (runAll c1 _) _
   rw [hr]
-  exact (sliceUpsert_inv c1 _ old v h1 hwf hv1).mono (fun x _ hp => hp.2 hp.1)
+  refine (sliceUpsert_inv c1 _ old v h1 hwf hv1).mono (fun x _ hp => ⟨?_, hp.2⟩)
+  cases hp.1 with
+  | inl h => exact h
+  | inr h => exact absurd h hp.2
 
 theorem sliceDelete_eq (c : Ctl) (sl : Slice) :
     sliceDelete c sl =
@@ -220,8 +223,9 @@ theorem sliceDelete_eq (c : Ctl) (sl : Slice) :
                index := idxUpdate c.index sl.host sl.ns (cacheGet (cacheDelete c.cache sl.host sl.name) sl.host) } := rfl
 
 /-- Deleting a slice removes exactly its cache entry and its `needResync` registrations. -/
-theorem slice_delete_inv (c : Ctl) (ns name : String) (c' : Ctl) (hstep : stepC c (.delSlice ns name) = some c')
-    (hinv : Inv c) (hwf : WF c) : Inv c' := by
+theorem slice_delete_inv (c : Ctl) (ns name : String) (c' : Ctl) {P : Slice → Prop}
+    (hstep : stepC c (.delSlice ns name) = some c')
+    (hinv : InvExcept c P) (hwf : WF c) : InvExcept c' P := by
   simp only [stepC] at hstep
   cases hf : findSlice c.slices ns name with
   | none => rw [hf] at hstep; cases hstep
@@ -243,11 +247,11 @@ theorem slice_delete_inv (c : Ctl) (ns name : String) (c' : Ctl) (hstep : stepC 
       intro x hx h
       subst h
       exact ((hmem x).mp hx).2 hon
-    show Inv (runAll c1 [Ev.slDel o])
+    show InvExcept (runAll c1 [Ev.slDel o]) P
     have : runAll c1 [Ev.slDel o] = sliceDelete c1 o := by simp [runAll, runEvents, handle]
     rw [this, sliceDelete_eq]
     refine ⟨?_, ?_, ?_, hinv.smapSome, hinv.smapOnly, ?_, fun h per hl => nodupKeys_cacheDelete c.cache o.host o.name h per (hinv.nodup h) hl⟩
-    · intro x hx hs _
+    · intro x hx hs hnp
       have hxc := ((hmem x).mp hx).1
       have hor : x.host ≠ o.host ∨ x.name ≠ o.name := by
         by_cases hh : x.host = o.host
@@ -255,7 +259,7 @@ theorem slice_delete_inv (c : Ctl) (ns name : String) (c' : Ctl) (hstep : stepC 
         · left; exact hh
       show cacheEntry (cacheDelete c.cache o.host o.name) x.host x.name = _
       rw [cacheEntry_delete_other _ _ _ _ _ hor]
-      exact hinv.fresh x hxc hs (fun hf => hf)
+      exact hinv.fresh x hxc hs hnp
     · intro h n eps he
       have he' : cacheEntry (cacheDelete c.cache o.host o.name) h n = some eps := he
       by_cases hh : h = o.host ∧ n = o.name
@@ -271,12 +275,12 @@ theorem slice_delete_inv (c : Ctl) (ns name : String) (c' : Ctl) (hstep : stepC 
         have : sl = o := hwf.sliceNameInj sl hsl o ho (hsame.1.trans hon.1.symm) (hsame.2.trans hon.2.symm)
         subst this
         exact hh ⟨hsh.symm, hsn.symm⟩
-    · intro x hx _ a ha
+    · intro x hx hnp a ha
       have hxc := ((hmem x).mp hx).1
       have hk : x.key ≠ o.key := fun hk => hne x hx (hwf.sliceKeyInj x hxc o ho hk)
       show setContains (endpointsDeleted c.resync o.key o.allAddrs) a x.key = true
       rw [endpointsDeleted_contains]
-      have h1 := hinv.parked x hxc (fun hf => hf) a ha
+      have h1 := hinv.parked x hxc hnp a ha
       have : (x.key == o.key) = false := by simp [hk]
       simp [h1, this]
     · intro h
@@ -378,12 +382,12 @@ def SvcIrrelevant (c : Ctl) (host : String) (a b : Option Svc) : Prop :=
 /-- A Service add/update re-establishes the invariant provided the change of `servicesMap` does not
     alter what the already cached slices of that hostname build to (the handler re-reads the cache,
     it does not rebuild it - finding `health-built-before-service-known`). -/
-theorem svc_write_inv (c : Ctl) (v : Svc) (c' : Ctl) (hstep : stepC c (.svc v) = some c')
-    (hinv : Inv c)
+theorem svc_write_inv (c : Ctl) (v : Svc) (c' : Ctl) {P : Slice → Prop} (hstep : stepC c (.svc v) = some c')
+    (hinv : InvExcept c P)
     (hwf : WF { c with svcs := upsertBy (fun x => x.ns = v.ns ∧ x.name = v.name) v c.svcs })
     (hconv : convNs c.nss v = v)
     (hstable : SvcIrrelevant c v.host (alookup v.host c.smap) (some v)) :
-    Inv c' := by
+    InvExcept c' P := by
   simp only [stepC, Option.some.injEq] at hstep
   subst hstep
   let c1 : Ctl := { c with svcs := upsertBy (fun x => x.ns = v.ns ∧ x.name = v.name) v c.svcs }
@@ -396,7 +400,7 @@ theorem svc_write_inv (c : Ctl) (v : Svc) (c' : Ctl) (hstep : stepC c (.svc v) =
       | some o => Ev.svcUpd o v] = serviceUpsert c1 v := by
     have hc1 : convNs c1.nss v = v := hconv
     cases findSvc c.svcs v.ns v.name <;> simp [runAll, runEvents, handle, hfind, hc1]
-  show Inv (runAll c1 _)
+  show InvExcept (runAll c1 _) P
   rw [hrun]
   unfold serviceUpsert
   let c2 : Ctl := { c1 with smap := aset v.host v c1.smap }
@@ -405,11 +409,11 @@ theorem svc_write_inv (c : Ctl) (v : Svc) (c' : Ctl) (hstep : stepC c (.svc v) =
   have hsm : ∀ h, alookup h c2.smap = if h = v.host then some v else alookup h c.smap := by
     intro h; exact alookup_aset _ _ _ _
   refine ⟨?_, ?_, ?_, ?_, ?_, ?_, by rw [hf.2.2.2.2.2.2.1]; exact hinv.nodup⟩
-  · intro x hx hs _
+  · intro x hx hs hnp
     rw [hf.1] at hx
     unfold EntryOK
     rw [hf.2.2.2.2.2.2.1, hf.2.2.1, hf.2.2.2.1, hf.2.2.2.2.1, hf.2.2.2.2.2.1, hsm]
-    have := hinv.fresh x hx hs (fun hf => hf)
+    have := hinv.fresh x hx hs hnp
     by_cases hh : x.host = v.host
     · simp only [hh, if_true]
       rw [← hstable x hx hs hh, ← hh]
@@ -420,12 +424,12 @@ theorem svc_write_inv (c : Ctl) (v : Svc) (c' : Ctl) (hstep : stepC c (.svc v) =
     rw [hf.2.2.2.2.2.2.1] at he
     rw [hf.1]
     exact hinv.noForeign h n eps he
-  · intro x hx _ a ha
+  · intro x hx hnp a ha
     rw [hf.1] at hx
     rw [hf.2.2.1] at ha
     rw [hf.2.2.2.2.2.2.2.1]
-    exact hinv.parked x hx (fun hf => hf) a ha
-  · intro sv hsv
+    exact hinv.parked x hx hnp a ha
+  · intro sv hsv _
     rw [hf.2.1] at hsv
     rw [hf.2.2.2.2.2.1, hsm]
     by_cases hh : sv.host = v.host
@@ -434,7 +438,7 @@ theorem svc_write_inv (c : Ctl) (v : Svc) (c' : Ctl) (hstep : stepC c (.svc v) =
     · simp only [hh, if_false]
       cases mem_upsertBy _ _ _ _ hsv with
       | inl h => rw [h] at hh; exact absurd rfl hh
-      | inr h => exact hinv.smapSome sv h
+      | inr h => exact hinv.smapSome sv h (fun hq => hq)
   · intro h sv hl
     rw [hf.2.2.2.2.2.1, hsm] at hl
     rw [hf.2.1]
@@ -470,10 +474,11 @@ theorem svc_write_inv (c : Ctl) (v : Svc) (c' : Ctl) (hstep : stepC c (.svc v) =
         exact this
 
 /-- A Service delete re-establishes the invariant under the same proviso. -/
-theorem svc_delete_inv (c : Ctl) (ns name : String) (c' : Ctl) (hstep : stepC c (.delSvc ns name) = some c')
-    (hinv : Inv c) (hwf : WF c)
+theorem svc_delete_inv (c : Ctl) (ns name : String) (c' : Ctl) {P : Slice → Prop}
+    (hstep : stepC c (.delSvc ns name) = some c')
+    (hinv : InvExcept c P) (hwf : WF c)
     (hstable : ∀ o, findSvc c.svcs ns name = some o → SvcIrrelevant c o.host (some o) none) :
-    Inv c' := by
+    InvExcept c' P := by
   simp only [stepC] at hstep
   cases hfo : findSvc c.svcs ns name with
   | none => rw [hfo] at hstep; cases hstep
@@ -491,26 +496,26 @@ theorem svc_delete_inv (c : Ctl) (ns name : String) (c' : Ctl) (hstep : stepC c 
       show x ∈ c.svcs.filter _ ↔ _
       rw [List.mem_filter]
       simp only [Bool.not_eq_true', decide_eq_false_iff_not]
-    show Inv (runAll c1 [Ev.svcDel o])
+    show InvExcept (runAll c1 [Ev.svcDel o]) P
     have : runAll c1 [Ev.svcDel o] = serviceDelete c1 o := by simp [runAll, runEvents, handle]
     rw [this]
     unfold serviceDelete
     have hsm : ∀ h, alookup h (aerase o.host c.smap) = if h = o.host then none else alookup h c.smap :=
       fun h => alookup_aerase _ _ _
-    have hcur : alookup o.host c.smap = some o := hinv.smapSome o ho
-    refine ⟨?_, hinv.noForeign, fun x hx _ => hinv.parked x hx (fun hf => hf), ?_, ?_, ?_, hinv.nodup⟩
-    · intro x hx hs _
+    have hcur : alookup o.host c.smap = some o := hinv.smapSome o ho (fun hq => hq)
+    refine ⟨?_, hinv.noForeign, fun x hx hnp => hinv.parked x hx hnp, ?_, ?_, ?_, hinv.nodup⟩
+    · intro x hx hs hnp
       unfold EntryOK
       show cacheEntry c.cache x.host x.name = buildSlice c.pods c.nodes c.byIP (alookup x.host (aerase o.host c.smap)) x
       rw [hsm]
-      have := hinv.fresh x hx hs (fun hf => hf)
+      have := hinv.fresh x hx hs hnp
       by_cases hh : x.host = o.host
       · simp only [hh, if_true]
         rw [← hstable o hfo x hx hs hh, ← hcur, ← hh]
         exact this
       · simp only [hh, if_false]
         exact this
-    · intro sv hsv
+    · intro sv hsv _
       have hsvc := ((hmem sv).mp hsv)
       show alookup sv.host (aerase o.host c.smap) = some sv
       rw [hsm]
@@ -520,7 +525,7 @@ theorem svc_delete_inv (c : Ctl) (ns name : String) (c' : Ctl) (hstep : stepC c 
         subst this
         exact hsvc.2 hon
       simp only [hh, if_false]
-      exact hinv.smapSome sv hsvc.1
+      exact hinv.smapSome sv hsvc.1 (fun hq => hq)
     · intro h sv hl
       have hl' : alookup h (aerase o.host c.smap) = some sv := hl
       rw [hsm] at hl'
@@ -592,8 +597,8 @@ theorem ns_delete_ctl (c : Ctl) (name : String) (c' : Ctl) (h : ∀ sv ∈ c.svc
     simp only [runAll, runEvents, handle]
     split <;> simp [hre, runEvents]
 
-theorem InvExcept.of_nss {c : Ctl} {P : Slice → Prop} (h : InvExcept c P) (nss' : List Ns) :
-    InvExcept { c with nss := nss' } P :=
+theorem InvExcept.of_nss {c : Ctl} {P : Slice → Prop} {Q : Svc → Prop} (h : InvExcept c P Q) (nss' : List Ns) :
+    InvExcept { c with nss := nss' } P Q :=
   ⟨h.fresh, h.noForeign, h.parked, h.smapSome, h.smapOnly, h.index, h.nodup⟩
 
 end IstioModel.C15
